@@ -539,6 +539,18 @@ impl Array {
 
 impl Display for Object {
     fn fmt(&self, f: &mut std::fmt::Formatter<'_>) -> std::fmt::Result {
+        self.fmt_nested(f, &mut Vec::new())
+    }
+}
+
+impl Object {
+    /// Formats this object. `parents` holds the arrays that are being formatted right now, so that
+    /// an array that (indirectly) contains itself is shown as [...] instead of recursing forever.
+    fn fmt_nested(
+        &self,
+        f: &mut std::fmt::Formatter<'_>,
+        parents: &mut Vec<*mut u8>,
+    ) -> std::fmt::Result {
         match self.tag() {
             Type::Null => (),
             Type::Bool => f.write_str(if self.as_bool() { "ja" } else { "nee" })?,
@@ -546,15 +558,20 @@ impl Display for Object {
             Type::Int => f.write_str(&self.as_int().to_string())?,
             Type::String => unsafe { f.write_str(self.as_str_unchecked())? },
             Type::Array => {
+                if parents.contains(&self.as_ptr()) {
+                    return f.write_str("[...]");
+                }
+                parents.push(self.as_ptr());
                 let values = unsafe { self.as_vec_unchecked() };
                 f.write_char('[')?;
                 for (i, obj) in values.iter().enumerate() {
                     if i > 0 {
                         f.write_str(", ")?;
                     }
-                    std::fmt::Display::fmt(&obj, f)?;
+                    obj.fmt_nested(f, parents)?;
                 }
                 f.write_char(']')?;
+                parents.pop();
             }
             Type::Function => f.write_str("functie")?,
         }
